@@ -167,6 +167,41 @@ def ob_line(ctx, N, crlf):
                    sample=lambda m: {'line': model_bytes(m, data), 'outcome': 'accept'})
 
 
+LONG_HEADERS = [
+    b'#..meta: format=json, length=120, encoding=utf-8, x-one=1, x_two=value/with/slashes, Three=3.0, four=-4, five=a_b-c.d, '
+    b'six=6, seven=seven, eight=8, nine=9, ten=0010',
+    b'#...diff: length=12, type=text, line_endings=unix, a=1, a=2, length2=7, Length=9, encoding-hint=utf-16, zz=' + b'v' * 60,
+    b'#diffx: version=1.0, encoding=utf-8, k=' + b'w' * 57,          # 96 bytes of text
+    b'#diffx: version=1.0, encoding=utf-8, k=' + b'w' * 56,          # 95: an inserted byte makes it 96
+    b'#.change: a=' + b'b' * 180,                                    # 192
+    b'#.change: a=' + b'b' * 179,                                    # 191
+]
+
+
+def ob_long(ctx, hi, W):
+    """long, many-option headers (duplicate keys, look-alike keys, lengths around the 96-byte read-ahead block) with a
+    fully symbolic window of 1..W bytes replacing, or inserted at, every position of the option part"""
+    base = LONG_HEADERS[hi]
+    colon = base.index(b':') + 1
+    mode = ctx.pick('mode', ['replace', 'insert'])
+    p = ctx.pick('pos', list(range(colon, len(base) + (1 if mode == 'insert' else 0))))
+    w = ctx.choose(1, W, 'w')
+    win = sym_bytes(ctx, 'x', w)
+    for e in win.el:
+        ctx.assume(e != 10)
+    tail_after = base[p + w:] if mode == 'replace' else base[p:]
+    line_el = tuple(base[:p]) + tuple(win.el) + tuple(tail_after)
+    if isinstance(line_el[-1], int):
+        if line_el[-1] == 13:
+            return skip('line would end in CR')
+    else:
+        ctx.assume(line_el[-1] != 13)
+    tail = mk_seq(line_el[colon:], bytes)
+    spec = nfa_formula(SPEC_TAIL, lift(tail).el if len(tail) else ())
+    sid = base[1:colon - 1].decode()
+    return _run_header(ctx, line_el, False, spec, tail, sid, None)
+
+
 def ob_public(ctx, N):
     """through the public iterator only: '#diffx: version=1.0' + tail"""
     from pydiffx.reader import DiffXReader
@@ -219,6 +254,14 @@ def obligations(tier):
                           must_reach=['DiffXReader._read_header'],
                           desc='real _read_header on a fully symbolic line of 0..%d bytes' % NL,
                           bounds={'line_len': [0, NL]}))
+        quick = tier == 'quick'
+        for hi in ([0, 2, 3, 4] if quick else range(len(LONG_HEADERS))):
+            W = 1 if quick else 2
+            obs.append(Ob('long-header[%d]' % hi, ob_long, dict(hi=hi, W=W), must_reach=['DiffXReader._read_header'],
+                          desc='%d-byte header with %d options (duplicates, look-alike keys, around the 96-byte block) '
+                               'with a symbolic window of 1..%d bytes replacing / inserted at every position of the '
+                               'option part' % (len(LONG_HEADERS[hi]), LONG_HEADERS[hi].count(b'='), W),
+                          bounds={'header_len': len(LONG_HEADERS[hi]), 'window': [1, W]}))
     NP = 6 if tier == 'quick' else 9
     obs.append(Ob('public[diffx]', ob_public, dict(N=NP), must_reach=['DiffXReader.iter_sections'],
                   desc='public iterator on "#diffx: version=1.0" + symbolic tail of 0..%d bytes' % NP,
@@ -226,7 +269,7 @@ def obligations(tier):
     return obs
 
 
-HEADERS = [b'#diffx: version=1.0', b'#diffx: encoding=utf-8, version=1.0', b'#.change:', b'#..file:', b'#...diff: length=82',
+HEADERS = LONG_HEADERS + [b'#diffx: version=1.0', b'#diffx: encoding=utf-8, version=1.0', b'#.change:', b'#..file:', b'#...diff: length=82',
            b'#..meta: length=100, my-option=value, another-option=another-value', b'#diffx::', b'.preamble', b'#.change',
            b'#....diff:', b'#diffx: 1.0', b'#..meta: option=100+', b'#..meta: option=value,option2=value',
            b'#..meta: option=value, option2=value:', b'#..meta: _option=value', b'#..meta: my-option = value',
